@@ -54,8 +54,9 @@ def cases_ord(tier, seed):
         srt = sorted(ids)
         for mr, mh in (([srt[0]], []), ([], [srt[0]]), ([srt[1]], []), ([], [srt[1]]), ([srt[0]], [srt[-1]]),
                        ([srt[1]], [srt[0]])):
-            for per_utt in (False, True):
-                yield dict(base, per_utt=per_utt, batch=2, missing={"ref": mr, "hyp": mh}, warn_missing=True)
+            for per_utt, distances in itertools.product((False, True), repeat=2):
+                yield dict(base, per_utt=per_utt, distances=distances, batch=2, missing={"ref": mr, "hyp": mh},
+                           warn_missing=True)
         yield dict(base, missing={"ref": [srt[1]], "hyp": []}, warn_missing=False)
         yield dict(base, missing={"ref": [], "hyp": [srt[0]]}, warn_missing=False, per_utt=True)
     # ---- relations across suffixes: the same ids must give the same result whatever the suffix
